@@ -248,4 +248,208 @@ Section AD.
     destruct (s_val s) as [v|]; [|discriminate]. destruct (all_vals r) as [vs|]; [|discriminate]. injection H as <-.
     simpl. f_equal. apply IH. reflexivity.
   Qed.
+
+  (* ---------- the sweep preserves  potential(node gradients) + <parameter gradients, dp>  ---------- *)
+  Section Sweep.
+    Variable ops0 : ops_t.            (* the evaluated tape, no gradient anywhere *)
+    Variable e0 : env.
+    Variable ps : list nat.           (* the parameters: duplicate-free, covering the tape *)
+    Hypothesis Hwf : wf_ops ops0.
+    Hypothesis HLA : forall k oi, nth_error ops0 k = Some oi -> f_inner F (o_op oi) = None ->
+      LocalAdjoint rO radd rmul F jvp (o_op oi).
+    Hypothesis Hcons : consistent ops0 e0.
+    Hypothesis Hrs : rsized ops0 e0.
+    Hypothesis Hnd : NoDup ps.
+    Hypothesis Hcover : forall k oi p, nth_error ops0 k = Some oi -> f_inner F (o_op oi) = Some p -> In p ps.
+
+    Definition psz (e : env) : Prop := psized ops0 e.
+
+    Lemma slot_sg (ops : ops_t) a s : sg ops = sg ops0 -> get_slot_ops ops a = Some s ->
+      exists s0, get_slot_ops ops0 a = Some s0 /\ s_shape s0 = s_shape s /\ s_val s0 = s_val s.
+    Proof.
+      intros H Hs. unfold get_slot_ops in *. pose proof (sg_nth ops ops0 (fst a) H) as Hk.
+      destruct (nth_error ops (fst a)) as [o1|]; [|discriminate]. destruct (nth_error ops0 (fst a)) as [o2|]; [|contradiction].
+      destruct Hk as (_ & _ & _ & Ev & Es).
+      assert (E1 : option_map s_val (nth_error (o_rets o1) (snd a)) = option_map s_val (nth_error (o_rets o2) (snd a)))
+        by (rewrite <- !nth_error_map, Ev; reflexivity).
+      assert (E2 : option_map s_shape (nth_error (o_rets o1) (snd a)) = option_map s_shape (nth_error (o_rets o2) (snd a)))
+        by (rewrite <- !nth_error_map, Es; reflexivity).
+      rewrite Hs in E1, E2. destruct (nth_error (o_rets o2) (snd a)) as [s0|]; [|discriminate]. simpl in *.
+      exists s0. split; [reflexivity|]. split; congruence.
+    Qed.
+
+    Lemma step_pot k (ops : ops_t) e ops' e' :
+      sg ops = sg ops0 -> e_pval e = e_pval e0 -> gsized ops -> psz e ->
+      bstep F VO k ops e = Some (ops', e', true) ->
+      pot ops' +! ppot ps e' = pot ops +! ppot ps e /\ gsized ops' /\ psz e' /\ e_pval e' = e_pval e0.
+    Proof.
+      intros Hsg Hpv Hgs Hps Hb.
+      assert (Hwf' : wf_ops ops) by (eapply sg_wf; [symmetry; exact Hsg|exact Hwf]).
+      destruct (bstep_shape F VO _ _ _ _ _ _ Hwf' Hb) as (cur & Ecur & [(Hc & _)|(_ & Hen & Hrest)]); [discriminate|].
+      cbv zeta in Hrest. destruct Hrest as (xs & Hxs & Hcase).
+      pose proof (sg_nth ops ops0 k Hsg) as Hk0. rewrite Ecur in Hk0.
+      destruct (nth_error ops0 k) as [cur0|] eqn:Ecur0; [|contradiction]. destruct Hk0 as (Eo & Ea & El & Evals & Eshp).
+      assert (Hargs : forall a, In a (o_args cur) -> fst a <> k).
+      { intros a Ha. pose proof (Hwf' k cur Ecur) as Hf. rewrite Forall_forall in Hf. destruct (Hf a Ha). lia. }
+      set (ops1 := map_op ops k (mat_zero VO)) in *.
+      set (ops2 := fold_mat VO ops1 (o_args cur)) in *.
+      set (gys := map (grad_or_zero VO) (o_rets cur)) in *.
+      assert (Hp1 : pot ops1 = pot ops).
+      { pose proof (pot_map_op ops k (mat_zero VO) cur Ecur) as H. rewrite rets_pot_mat in H. eapply radd_cancel; eauto. }
+      assert (Hp2 : pot ops2 = pot ops) by (unfold ops2; rewrite pot_fold_mat; exact Hp1).
+      assert (Ek2 : nth_error ops2 k = Some (set_rets cur (map (mat_zero VO) (o_rets cur)))).
+      { unfold ops2. rewrite fold_mat_other by auto. apply map_op_at. exact Ecur. }
+      assert (Hg1 : gsized ops1).
+      { apply gsized_map_op; auto. intros b s _ Hs. eapply mat_zero_sized; eauto. }
+      assert (Hg2 : gsized ops2) by (apply gsized_fold_mat; exact Hg1).
+      assert (Hpotk : rets_pot k 0 (map (mat_zero VO) (o_rets cur)) = dots gys (tans_of k 0 (length (o_rets cur)))).
+      { rewrite rets_pot_mat. apply rets_pot_dots. }
+      (* sizes of the upstream gradients *)
+      assert (Hgys : forall j s, nth_error (o_rets cur) j = Some s -> length (grad_or_zero VO s) = size (s_shape s)).
+      { intros j s Hj. unfold grad_or_zero. destruct (s_grad s) as [x|] eqn:Ex; [|simpl; apply repeat_length].
+        apply (Hgs (k, j) s x); auto. unfold get_slot_ops. simpl. rewrite Ecur. exact Hj. }
+      destruct Hcase as [(p & gy & rest & Ein & Egys & -> & ->)|(Ein & ys & Eys & -> & ->)].
+      - (* the Parameter operator *)
+        pose proof (Hcons k cur0 Ecur0) as Hc0. rewrite <- Eo, Ein in Hc0. destruct Hc0 as (Hl1 & Htan).
+        assert (Hl : length (o_rets cur) = 1) by congruence.
+        destruct (o_rets cur) as [|s0 [|? ?]] eqn:Er; try discriminate.
+        unfold gys in Egys. simpl in Egys. injection Egys as <- <-.
+        pose proof (pot_map_op ops2 k clr _ Ek2) as H. cbn [o_rets set_rets] in H. rewrite rets_pot_clr, Hpotk in H.
+        unfold gys, tans_of in H. simpl in H. rewrite Htan in H.
+        assert (Hlen : length (e_pgrad e p) = length (grad_or_zero VO s0)).
+        { rewrite (Hgys 0 s0) by reflexivity.
+          assert (Hs00 : exists s00, nth_error (o_rets cur0) 0 = Some s00 /\ s_shape s00 = s_shape s0).
+          { destruct (o_rets cur0) as [|s00 [|? ?]]; try discriminate. simpl in Eshp. injection Eshp as Eshp.
+            exists s00. split; [reflexivity|congruence]. }
+          destruct Hs00 as (s00 & E00 & <-). apply (Hps k cur0 p s00); auto. congruence. }
+        assert (Hin : In p ps) by (apply (Hcover k cur0); [exact Ecur0|congruence]).
+        rewrite (ppot_add ps e p _ Hnd Hin Hlen).
+        split; [|split; [|split]].
+        + transitivity (pot (map_op ops2 k clr) +! (dot (grad_or_zero VO s0) (dp p) +! rO) +! ppot ps e); [ring|]. rewrite H, Hp2. ring.
+        + apply gsized_map_op; auto. intros b s _ _ x Hx. discriminate.
+        + intros k1 oi1 p1 s1 E1 Ei1 Es1. cbn [add_pgrad e_pgrad]. destruct (Nat.eqb_spec p1 p) as [->|N]; [|eapply Hps; eauto].
+          cbn [vadd vec_ops]. rewrite length_vplus by exact Hlen. eapply Hps; eauto.
+        + exact Hpv.
+      - (* an ordinary operator: LocalAdjoint *)
+        pose proof (Hcons k cur0 Ecur0) as Hc0. rewrite <- Eo, Ein in Hc0.
+        assert (Eys0 : all_vals (o_rets cur0) = Some ys).
+        { clear - Eys Evals. revert ys Eys. generalize dependent (o_rets cur0). induction (o_rets cur) as [|s r IH]; intros r0 Ev ys Hy; destruct r0 as [|s0 r0]; simpl in *; try discriminate; auto.
+          injection Ev as Es Er. rewrite <- Es. destruct (s_val s); [|discriminate]. destruct (all_vals r) as [vs|] eqn:Evs; [|discriminate].
+          rewrite (IH r0 Er vs eq_refl). exact Hy. }
+        destruct (Hc0 ys Eys0) as (pos & xs0 & Hxs0 & Hys & Htans).
+        assert (Exs : xs = xs0).
+        { apply (Forall2_fun (bread F ops e) (o_args cur)); [exact Hxs|]. rewrite Ea.
+          eapply Forall2_impl; [|exact Hxs0]. intros a x. cbv beta. rewrite (bread_sg ops ops0 e e0 a Hsg Hpv). auto. }
+        subst xs0. rewrite <- Ea, <- El in Htans.
+        set (dxs := map tan (o_args cur)) in *.
+        (* sizes for LocalAdjoint *)
+        assert (Hslot_arg : forall a x, In a (o_args cur) -> bread F ops e a = Some x ->
+                  exists s, get_slot_ops ops a = Some s /\ length x = size (s_shape s) /\ length (tan a) = size (s_shape s)).
+        { intros a x Ha Hx. assert (Hs : exists s, get_slot_ops ops a = Some s).
+          { unfold bread in Hx. unfold get_slot_ops. destruct (nth_error ops (fst a)) as [oa|]; [|discriminate].
+            destruct (nth_error (o_rets oa) (snd a)) as [s|]; [eauto|discriminate]. }
+          destruct Hs as (s & Hs). exists s. split; [exact Hs|]. destruct (slot_sg ops a s Hsg Hs) as (s0 & Hs0 & Esh & _).
+          destruct (Hrs a s0 Hs0) as (Ht & Hb0). rewrite <- Esh. split; [|exact Ht]. apply Hb0.
+          rewrite <- (bread_sg ops ops0 e e0 a Hsg Hpv). exact Hx. }
+        assert (HF1 : Forall2 (fun x dx => length dx = length x) xs dxs).
+        { unfold dxs. clear - Hxs Hslot_arg. induction Hxs as [|a x l l' Hax _ IH]; simpl; constructor.
+          - destruct (Hslot_arg a x (or_introl eq_refl) Hax) as (s & _ & A & B). congruence.
+          - apply IH. intros b y Hb. apply Hslot_arg. right; exact Hb. }
+        assert (HF2 : Forall2 (fun y gy => length gy = length y) (f_fw F (o_op cur) pos xs) gys).
+        { rewrite <- Hys. unfold gys. pose proof (all_vals_spec _ _ Eys) as Hv.
+          clear - Hv Hgys Hrs Hsg Ecur Hpv. revert ys Hv.
+          assert (Hval : forall j s y, nth_error (o_rets cur) j = Some s -> s_val s = Some y -> length y = size (s_shape s)).
+          { intros j s y Hj Hy. assert (Hs : get_slot_ops ops (k, j) = Some s) by (unfold get_slot_ops; simpl; rewrite Ecur; exact Hj).
+            destruct (slot_sg ops (k, j) s Hsg Hs) as (s0 & Hs0 & Esh & Ev). destruct (Hrs (k, j) s0 Hs0) as (_ & Hb0).
+            rewrite <- Esh. apply Hb0. unfold bread. unfold get_slot_ops in Hs0. simpl in *.
+            destruct (nth_error ops0 k) as [o0|]; [|discriminate]. rewrite Hs0. rewrite Ev, Hy. reflexivity. }
+          revert Hgys Hval. generalize (o_rets cur) as rets. induction rets as [|s r IH]; intros Hg Hval [|y ys] Hv; simpl in *; try discriminate; constructor.
+          - injection Hv as Hv0 _. rewrite (Hg 0 s eq_refl). symmetry. apply (Hval 0 s y eq_refl Hv0).
+          - injection Hv as _ Hv1. apply IH; auto; intros j; [apply (Hg (S j))|apply (Hval (S j))]. }
+        destruct (HLA k cur0 Ecur0 (eq_trans (f_equal (f_inner F) (eq_sym Eo)) Ein) pos xs dxs gys) as (LA1 & LA2 & _); [try rewrite <- Eo; exact HF1|try rewrite <- Eo; exact HF2|].
+        rewrite <- Eo, <- Hys in LA1, LA2.
+        set (incs := eff_bw F (o_op cur) xs ys gys) in *.
+        assert (Hincs : forall i inc, nth_error incs i = Some inc -> exists a s gx, nth_error (o_args cur) i = Some a /\
+                  get_slot_ops ops2 a = Some s /\ s_grad s = Some gx /\ length gx = length inc).
+        { intros i inc Hi. destruct (LA2 i inc Hi) as (x & Hx & Hlx).
+          assert (Ha : exists a, nth_error (o_args cur) i = Some a /\ bread F ops e a = Some x).
+          { clear - Hxs Hx. revert i Hx. induction Hxs as [|a y l l' Hay _ IH]; intros [|i] Hx; simpl in *; try discriminate.
+            - injection Hx as ->. eauto.
+            - apply IH. exact Hx. }
+          destruct Ha as (a & Eai & Hax). pose proof (nth_error_In _ _ Eai) as Hain.
+          destruct (Hslot_arg a x Hain Hax) as (s & Hs & Hlx2 & _).
+          assert (Hm : mem_addr a (o_args cur) = true).
+          { unfold mem_addr. apply existsb_exists. exists a. split; auto. destruct (addr_eq_spec a a); congruence. }
+          assert (Hget2 : get_slot_ops ops2 a = Some (mat_zero VO s)).
+          { unfold ops2. rewrite fold_mat_get, Hm. unfold ops1. rewrite map_op_get.
+            destruct (Nat.eqb_spec k (fst a)) as [E|N]; [exfalso; apply (Hargs a Hain); auto|]. rewrite Hs. reflexivity. }
+          exists a, (mat_zero VO s). destruct (s_grad (mat_zero VO s)) as [gx|] eqn:Eg.
+          - exists gx. repeat split; auto. rewrite (mat_zero_sized ops a s Hgs Hs gx Eg).
+            assert (Hsh : s_shape (mat_zero VO s) = s_shape s) by (unfold mat_zero; destruct (s_grad s); reflexivity). rewrite Hsh. congruence.
+          - exfalso. unfold mat_zero in Eg. destruct (s_grad s) eqn:E1; [congruence|discriminate]. }
+        pose proof (pot_add_incs (o_args cur) ops2 incs Hincs) as Hp3. fold dxs in Hp3.
+        assert (Ek3 : nth_error (add_incs VO ops2 (o_args cur) incs) k = Some (set_rets cur (map (mat_zero VO) (o_rets cur))))
+          by (rewrite add_incs_other by auto; exact Ek2).
+        pose proof (pot_map_op _ k clr _ Ek3) as H. cbn [o_rets set_rets] in H. rewrite rets_pot_clr, Hpotk in H.
+        split; [|split; [|split]].
+        + f_equal. apply (radd_cancel _ _ (dots gys (tans_of k 0 (length (o_rets cur))))). rewrite H, Hp3, Hp2, Htans, LA1. ring.
+        + apply gsized_map_op; [apply gsized_add_incs; auto|]. intros b s _ _ x Hx. discriminate.
+        + exact Hps.
+        + exact Hpv.
+    Qed.
+
+    Lemma pot_gclean (ops : ops_t) : gclean ops -> pot ops = rO.
+    Proof.
+      intro Hc.
+      assert (Hall : Forall (fun oi : opinfo => Forall (fun s : slot => s_grad s = None) (o_rets oi)) ops).
+      { apply Forall_forall. intros oi Hoi. apply Forall_forall. intros s Hs.
+        apply In_nth_error in Hoi. destruct Hoi as (k & Ek). apply In_nth_error in Hs. destruct Hs as (j & Ej).
+        apply (Hc (k, j) s). unfold get_slot_ops. simpl. rewrite Ek. exact Ej. }
+      unfold pot. generalize 0 as k0. clear Hc. induction Hall as [|oi r Hoi _ IH]; intro k0; simpl; [reflexivity|].
+      rewrite IH. assert (Hr : forall v0, rets_pot k0 v0 (o_rets oi) = rO).
+      { induction Hoi as [|s rr Hs _ IHr]; intro v0; simpl; [reflexivity|]. rewrite IHr. unfold slot_pot. rewrite Hs. ring. }
+      rewrite Hr. ring.
+    Qed.
+
+    (* reverse_sweep_adjoint.  For the evaluated, gradient-free tape ops0 whose tangents in
+       direction dp are [tan] (consistent), every operator family satisfying LocalAdjoint on the
+       tape, every target node n, every prior gradients (those of e0):
+         sum_p <grad_after p, dp p>  =  sum_p <g0 p, dp p>  +  <ones, tan n>
+       i.e. the gradient ADDED to the parameters pairs with dp to the directional derivative
+       of sum(n); the pass leaves no node gradient and no changed parameter value. *)
+    Theorem reverse_sweep_adjoint n sn bl ops' e' bl' :
+      gclean ops0 -> psz e0 -> get_slot_ops ops0 n = Some sn ->
+      sweep F VO (fst n) (upd_ops ops0 n (fun s => set_grad s (Some (vones VO (s_shape s))))) e0 bl = Some (ops', e', bl') ->
+      ppot ps e' = ppot ps e0 +! dot (vones VO (s_shape sn)) (tan n) /\ gclean ops' /\ e_pval e' = e_pval e0.
+    Proof.
+      intros Hcl Hps0 Hsn Hsw.
+      set (seeded := upd_ops ops0 n (fun s => set_grad s (Some (vones VO (s_shape s))))) in *.
+      assert (Hsg0 : sg seeded = sg ops0) by (apply grad_only_sg; reflexivity).
+      assert (Hwf0 : wf_ops seeded) by (eapply sg_wf; [symmetry; exact Hsg0|exact Hwf]).
+      assert (Hgs0 : gsized seeded).
+      { apply gsized_upd; [intros a s x Hs Hx; rewrite (Hcl a s Hs) in Hx; discriminate|].
+        intros s _ x. cbn [s_grad set_grad s_shape]. intros [= <-]. simpl. apply repeat_length. }
+      assert (Hpot0 : pot seeded = dot (vones VO (s_shape sn)) (tan n)).
+      { pose proof (pot_upd ops0 n (fun s => set_grad s (Some (vones VO (s_shape s)))) sn Hsn) as H. fold seeded in H.
+        rewrite (pot_gclean ops0 Hcl) in H. unfold slot_pot in H. rewrite (Hcl n sn Hsn) in H. cbn [s_grad set_grad] in H.
+        transitivity (pot seeded +! rO); [ring|]. rewrite H. ring. }
+      set (C := pot seeded +! ppot ps e0).
+      pose (P := fun (m : nat) (o : ops_t) (e1 : env) (_ : list nat) =>
+                   sg o = sg ops0 /\ e_pval e1 = e_pval e0 /\ gsized o /\ psz e1 /\ pot o +! ppot ps e1 = C).
+      assert (HP : P 0 ops' e' bl').
+      { eapply (sweep_inv F VO P); [|exact Hwf0|exact Hsw|unfold P; auto].
+        intros k o e1 bl1 o1 e2 c Hwfo Hb (A & B & G & S & Q). unfold P. destruct c.
+        - destruct (step_pot k o e1 o1 e2 A B G S Hb) as (Q' & G' & S' & B').
+          split; [rewrite (bstep_sg F VO _ _ _ _ _ _ Hwfo Hb); exact A|]. split; [exact B'|]. split; [exact G'|]. split; [exact S'|]. congruence.
+        - destruct (bstep_shape F VO _ _ _ _ _ _ Hwfo Hb) as (cur & _ & [(_ & _ & -> & ->)|(Hcc & _)]); [auto|discriminate]. }
+      destruct HP as (A & B & _ & _ & Q).
+      assert (Hcf : gclear_from (S (fst n)) seeded).
+      { intros b s Hs Hle. unfold seeded in Hs. rewrite upd_ops_get in Hs.
+        destruct (Nat.eqb_spec (fst n) (fst b)) as [E|N]; [lia|]. simpl in Hs. eapply Hcl; eauto. }
+      destruct (sweep_clean F VO _ _ _ _ _ _ _ Hwf0 Hsw Hcf) as (_ & Hclean' & _ & _).
+      split; [|split; [exact Hclean'|exact B]].
+      rewrite (pot_gclean ops' Hclean') in Q. unfold C in Q. rewrite Hpot0 in Q.
+      transitivity (rO +! ppot ps e'); [ring|]. rewrite Q. ring.
+    Qed.
+  End Sweep.
 End AD.
